@@ -3,15 +3,16 @@ import json
 import vlib
 
 CFG = '''SPECIFICATION Spec
-CONSTANTS Engine = "%(engine)s" MaxRuns = %(runs)d MaxRetries = %(retries)d AllowFail = %(fail)s
+CONSTANTS Engine = "%(engine)s" MaxRuns = %(runs)d MaxRetries = %(retries)d AllowFail = %(fail)s SerializeStarts = %(ser)s
 INVARIANTS OneLiveRun PublishedIsLive StopHitsLive NoOrphan StatusAgrees %(extra)s
 VIEW View
 CHECK_DEADLOCK FALSE
 '''
 
 
-def cfg(engine="v1", runs=3, retries=1, fail=True, scripts=False):
+def cfg(engine="v1", runs=3, retries=1, fail=True, scripts=False, serialize=True):
     return CFG % {"engine": engine, "runs": runs, "retries": retries, "fail": "TRUE" if fail else "FALSE",
+                  "ser": "TRUE" if serialize else "FALSE",
                   "extra": "EmitScript" if scripts else ""}
 
 
@@ -22,7 +23,7 @@ FILES = lambda: [vlib.SPEC + "/lifecycle/Lifecycle.tla"]
 DELETE_SEMANTICS = {"v1": "v1", "v2": "v1"}  # since fix F12 both services compare-and-delete
 
 
-def run_design(chk, quick):
+def run_design(chk, quick, unserialized=False):
     for engine in ("v1", "v2"):
         sem = DELETE_SEMANTICS[engine]
         r = vlib.tlc_run("Lifecycle", cfg(sem, 3 if quick else 4, 1 if quick else 2, True), FILES(),
@@ -37,6 +38,19 @@ def run_design(chk, quick):
             vlib.log("Lifecycle (%s): TLC refutes %s on the model; conformance replay decides" % (engine, r["violated"]))
         chk.add_design(r, "Lifecycle (%s service, delete semantics %s): publication protocol incl. failure/recovery - "
                           "OneLiveRun, PublishedIsLive, StopHitsLive, NoOrphan, StatusAgrees%s" % (engine, sem, note))
+
+
+    if unserialized:
+        # the code has no per-pipeline start lock: the recovery goroutine's internal Start can interleave with a
+        # user Start.  With that interleaving in the model TLC refutes OneLiveRun - the design-level picture of
+        # open finding F13, which the start-while-recovering conformance family reproduces on both real services.
+        r = vlib.tlc_run("Lifecycle", cfg("v1", 3, 1, True, serialize=False), FILES(), name="Lifecycle-unserialized",
+                         timeout=1800)
+        if r["error"]:
+            raise vlib.Infra("TLC error in Lifecycle (unserialized): %s" % r["error"])
+        chk.add_design(r, "Lifecycle with SerializeStarts=FALSE (recovery's internal Start may overlap a user Start, as "
+                          "in the code): TLC %s - design-level counterpart of known finding F13" %
+                       ("refutes " + r["violated"] if r["violated"] else "finds no violation"))
 
 
 def schedules(engine, num, seed, runs=3, retries=1):
